@@ -14,12 +14,32 @@ void __sanitizer_start_switch_fiber(void** fake_stack_save, const void* bottom, 
 void __sanitizer_finish_switch_fiber(void* fake_stack_save, const void** bottom_old, size_t* size_old) __attribute__((weak));
 }
 
+// Fast context switch (x86-64 SysV): swapcontext() makes a sigprocmask system call per switch, which dominated the
+// run time of scheduler-heavy worlds (proxy, race build).  Callee-saved registers are pushed on the old stack, the
+// stack pointers exchanged.  Build with -DZSIM_UCONTEXT to fall back to ucontext.
+#if defined(__x86_64__) && !defined(ZSIM_UCONTEXT)
+#define ZSIM_FAST_SWITCH 1
+extern "C" void zsim_ctx_switch(void** from_sp, void* to_sp);
+__asm__(
+    ".text\n"
+    ".globl zsim_ctx_switch\n"
+    ".type zsim_ctx_switch,@function\n"
+    "zsim_ctx_switch:\n"
+    "  pushq %rbp\n  pushq %rbx\n  pushq %r12\n  pushq %r13\n  pushq %r14\n  pushq %r15\n"
+    "  movq %rsp, (%rdi)\n"
+    "  movq %rsi, %rsp\n"
+    "  popq %r15\n  popq %r14\n  popq %r13\n  popq %r12\n  popq %rbx\n  popq %rbp\n"
+    "  ret\n"
+    ".size zsim_ctx_switch,.-zsim_ctx_switch\n");
+#endif
+
 namespace sim {
 
 struct Task {
   int id = 0;
   std::string name;
   ucontext_t uc;
+  void* sp = nullptr;     // saved stack pointer (fast switch)
   char* stack = nullptr;  // usable region
   size_t stack_size = 0;
   char* map = nullptr;
@@ -57,6 +77,20 @@ void Sched::kill_all() {
   while (!evq_.empty()) evq_.pop();
 }
 
+#ifdef ZSIM_FAST_SWITCH
+static Task* g_entering = nullptr;
+static void* g_main_sp = nullptr;
+static void fast_entry() {
+  Task* t = g_entering;
+  if (__sanitizer_finish_switch_fiber) __sanitizer_finish_switch_fiber(nullptr, &g_main_bottom, &g_main_size);
+  t->fn();
+  t->st = Task::DONE;
+  if (__sanitizer_start_switch_fiber) __sanitizer_start_switch_fiber(nullptr, g_main_bottom, g_main_size);
+  zsim_ctx_switch(&t->sp, g_main_sp);
+  abort();  // never resumed
+}
+#endif
+
 void Sched::trampoline(unsigned lo, unsigned hi) {
   Task* t = (Task*)(((uintptr_t)hi << 32) | (uintptr_t)lo);
   if (__sanitizer_finish_switch_fiber) __sanitizer_finish_switch_fiber(nullptr, &g_main_bottom, &g_main_size);
@@ -85,8 +119,22 @@ Task* Sched::spawn(const std::string& name, std::function<void()> fn, size_t sta
   t->uc.uc_stack.ss_sp = t->stack;
   t->uc.uc_stack.ss_size = t->stack_size;
   t->uc.uc_link = nullptr;
+#ifdef ZSIM_FAST_SWITCH
+  {
+    // initial frame: six zeroed callee-saved registers and the entry address; after the pops and the ret the
+    // stack pointer is 8 modulo 16, as at any function entry
+    uintptr_t top = ((uintptr_t)t->stack + t->stack_size) & ~(uintptr_t)15;
+    uintptr_t* f = (uintptr_t*)(top - 8 * 10);
+    for (int i = 0; i < 6; i++) f[i] = 0;
+    f[6] = (uintptr_t)&fast_entry;
+    f[7] = 0;  // fake return address of fast_entry
+    t->sp = f;
+  }
+#endif
+#ifndef ZSIM_FAST_SWITCH
   uintptr_t p = (uintptr_t)t;
   makecontext(&t->uc, (void (*)())trampoline, 2, (unsigned)(p & 0xffffffffu), (unsigned)(p >> 32));
+#endif
   t->prio = hash_mix(seed_, 0xA11CE + t->id) | 1;
   tasks_.push_back(t);
   return t;
@@ -134,7 +182,12 @@ void Sched::switch_to(Task* t) {
   errno = t->saved_errno;
   void* fake = nullptr;
   if (__sanitizer_start_switch_fiber) __sanitizer_start_switch_fiber(&fake, t->stack, t->stack_size);
+#ifdef ZSIM_FAST_SWITCH
+  g_entering = t;
+  zsim_ctx_switch(&g_main_sp, t->sp);
+#else
   swapcontext(&main_, &t->uc);
+#endif
   if (__sanitizer_finish_switch_fiber) __sanitizer_finish_switch_fiber(fake, nullptr, nullptr);
   t->saved_errno = errno;
   last_ = t;
@@ -171,7 +224,11 @@ void Sched::yield() {
   if (!t) return;
   t->local_step++;
   if (__sanitizer_start_switch_fiber) __sanitizer_start_switch_fiber(&t->fake, g_main_bottom, g_main_size);
+#ifdef ZSIM_FAST_SWITCH
+  zsim_ctx_switch(&t->sp, g_main_sp);
+#else
   swapcontext(&t->uc, &main_);
+#endif
   if (__sanitizer_finish_switch_fiber) __sanitizer_finish_switch_fiber(t->fake, &g_main_bottom, &g_main_size);
 }
 
@@ -180,7 +237,11 @@ void Sched::finish_current() {
   if (!t) { fprintf(stderr, "zsim: finish_current() outside task\n"); abort(); }
   t->st = Task::DONE;
   if (__sanitizer_start_switch_fiber) __sanitizer_start_switch_fiber(nullptr, g_main_bottom, g_main_size);
+#ifdef ZSIM_FAST_SWITCH
+  zsim_ctx_switch(&t->sp, g_main_sp);
+#else
   swapcontext(&t->uc, &main_);
+#endif
   abort();  // never resumed
 }
 
